@@ -54,7 +54,7 @@ MUTATIONS = [
      "        if self.emit or self.leaf:\n            if self.serializer:"),
     # structural
     ('s-add-overwrites', 'C09', S, "        if key in inner_keys:\n            raise Exception(", "        if False:\n            raise Exception("),
-    ('s-move-keeps-source', 'C09', S, "        self._delete_path(source_path)\n\n        here = self.path_for()", "        here = self.path_for()"),
+    ('s-move-keeps-source', 'C09', S, "        del self.get_path(source_path[:-1]).inner[source_path[-1]]\n\n        here = self.path_for()", "        here = self.path_for()"),
     ('s-flow-list', 'C10', E, "                assoc_path(self.flow, path, flow_update)", "                assoc_path(self.flow, path, flow_updates)"),
     ('s-steps-not-deleted', 'C10', E, "                del self._step_paths[path]\n", "                pass\n"),
     ('s-front-kept', 'C10', E, "            if path not in self.process_paths:\n                update = self.front.pop(path)['update']",
@@ -63,8 +63,8 @@ MUTATIONS = [
      "                    self.front[path] = empty_front(0)\n                process_time"),
     ('s-split-both-remainder', 'C11', R, "            return [half, half + remainder]", "            return [half + remainder, half + remainder]"),
     ('s-daughters-share-processes', 'C11', S, "                processes = copy.deepcopy(mother_processes)\n", "                processes = mother_processes\n"),
-    ('s-initial-before-divided', 'C11', S, "            merged_initial_state = deep_merge(\n                daughter_state, daughter.get('initial_state', {}))",
-     "            merged_initial_state = deep_merge(\n                dict(daughter.get('initial_state', {})), daughter_state)"),
+    ('s-initial-before-divided', 'C11', S, "            merged_initial_state = deep_merge(\n                copy.deepcopy(daughter_state),\n                daughter.get('initial_state', {}))",
+     "            merged_initial_state = deep_merge(\n                dict(daughter.get('initial_state', {})), copy.deepcopy(daughter_state))"),
     ('s-branch-divider-ignored', 'C11', S, "        divider = self._get_divider()\n        if divider:", "        divider = self._get_divider() if not self.inner else None\n        if divider:"),
     ('s-quantity-not-halved', 'C11', R, "    elif isinstance(state, (float, Quantity)):\n        half = state/2", "    elif isinstance(state, (float, Quantity)):\n        half = state/2 if isinstance(state, float) else state"),
     ('s-inplace-front-kept', 'C10', E, "                self._add_process_path(process, path, new_flow)\n                # A process that replaces another one under the same\n                # path starts afresh as well.\n                advance = self.front.pop(path, None)",
